@@ -7,7 +7,7 @@ A simulator in group path ``p`` (tuple, () = root) has labels
 A connection from path ``p`` to path ``q`` with common prefix length ``c``
 
 * keeps ``t`` and the sub-times of the ``c`` common groups,
-* adds ``shift`` to ``t`` (time-shifted connection),
+* adds ``shift`` to ``t`` and restarts all sub-times at 0 (time-shifted connection: a later time step),
 * adds 1 to the sub-time of the closest common group (weak; needs c >= 1),
 * forgets the deeper source sub-times, starts deeper destination ones at 0.
 """
@@ -38,7 +38,10 @@ def delayed(label: Label, p: Path, q: Path, shift: int = 0, weak: bool = False) 
     assert len(label) == 1 + len(p), (label, p)
     c = common(p, q)
     kept = list(label[:1 + c])
-    kept[0] += shift
+    if shift:
+        # a later time step: "sub-steps within one time step" start from 0 again (like for
+        # self-steps and future output times)
+        kept = [kept[0] + shift] + [0] * c
     if weak:
         assert c >= 1, "weak connection without common group"
         kept[c] += 1
